@@ -99,8 +99,9 @@ def lkNested : List LockEv := [.acq, .acq, .rel, .rel]
 
 /-- `_enter_senescence`: a no-op unless the lifecycle is ACTIVE -/
 def enterSenescence (s : State) (r : Reason) : State × List Ev :=
-  if s.phase = .senescent ∨ s.phase = .apoptotic ∨ s.phase = .terminated then (s, [])
-  else ({ s with phase := .senescent, reason := some r }, [.change s.phase .senescent, .senescence r])
+  if s.phase = .active then
+    ({ s with phase := .senescent, reason := some r }, [.change .active .senescent, .senescence r])
+  else (s, [])
 
 /-- body of `start()` once the NASCENT test has passed -/
 def started (s : State) : State :=
@@ -314,21 +315,29 @@ def lockRun (k : LockKind) : Nat → List LockEv → Bool
 
 /-! ### all complete lock-event traces of a shape (for tying the automaton's paths to the extracted shapes) -/
 
+def addNew (x : List LockEv) (l : List (List LockEv)) : List (List LockEv) :=
+  if l.contains x then l else l ++ [x]
+
+/-- union without duplicates (keeps the enumeration small) -/
+def unionNew (a b : List (List LockEv)) : List (List LockEv) :=
+  b.foldl (fun acc x => addNew x acc) a
+
 def tracesCalls (callT : Nat → List (List LockEv)) : List Nat → List (List LockEv)
   | [] => [[]]
   | c :: cs =>
     let rest := tracesCalls callT cs
-    rest ++ (callT c).flatMap fun t => rest.map fun r => t ++ r
+    unionNew rest ((callT c).flatMap fun t => rest.map fun r => t ++ r)
 
 def tracesItems (callT : Nat → List (List LockEv)) : List Item → List (List LockEv)
   | [] => [[]]
   | .call c :: items =>
     let rest := tracesItems callT items
-    rest ++ (callT c).flatMap fun t => rest.map fun r => t ++ r
+    unionNew rest ((callT c).flatMap fun t => rest.map fun r => t ++ r)
   | .region cs :: items =>
     let rest := tracesItems callT items
-    rest ++ (tracesCalls callT cs).flatMap fun t => rest.map fun r => (LockEv.acq :: t) ++ (LockEv.rel :: r)
+    unionNew rest ((tracesCalls callT cs).flatMap fun t => rest.map fun r => (LockEv.acq :: t) ++ (LockEv.rel :: r))
 
+/-- every sequence of lock events a complete execution of method `m` can produce (branches resolved either way) -/
 def tracesM (T : Table) : Nat → Nat → List (List LockEv)
   | 0, _ => []
   | fuel + 1, m => tracesItems (tracesM T fuel) (T.bodyOf m)
